@@ -24,7 +24,7 @@ class FnContract:
                  is_property=False, setter=False, note=None, lets=None, await_havoc=None, trusted_reason=None,
                  pure=False, emits=None, opaque_calls=(), findings=(), no_inv=False, defs=(), bounded=None, replay_seeds=None, call_ensures=None,
                  call_modifies=None, ghosts=None, inline_calls=False, fresh_result=False,
-                 allow_decorators=(), skip_frame=None, loops_by_text=None, epilogue=None):
+                 allow_decorators=(), skip_frame=None, loops_by_text=None, epilogue=None, shards=None):
         self.cset = cset
         self.key = key
         self.file = file
@@ -50,6 +50,7 @@ class FnContract:
         self.emits = emits
         self.opaque_calls = list(opaque_calls)
         self.defs = list(defs)          # definitional unfoldings of spec functions (assumed, never proved)
+        self.shards = shards           # prove the paths of a heavy function in this many parallel workers
         self.replay_seeds = dict(replay_seeds or {})   # param -> concrete values tried natively after the model
         # weaker summary used at call sites instead of ensures/modifies (sound: callers learn less)
         self.call_ensures = None if call_ensures is None else [_lab(c, "ensures", i) for i, c in enumerate(call_ensures)]
